@@ -88,7 +88,7 @@ def split_file(path, n, wd, stem):
     return out, len(lines)
 
 
-def judge(res, wd, module, result_files, known, extra_env=None, consts=None, timeout=3000, mem="3g", module_consts=None):
+def judge(res, wd, module, result_files, known, extra_env=None, consts=None, timeout=3000, mem="2g", module_consts=None):
     """Runs the judge module over every results file; returns (judged, nontrivial, bad, knownhits) where bad and
     knownhits are lists of (case id, [clause ids])."""
     mc = {"KnownIds": tla_set(known)}
